@@ -37,6 +37,10 @@ type bgEndpoint struct {
 	Draining bool  `json:"draining"`
 	Groups   []int `json:"groups"` // indices of the groups whose label the pod carries (sorted)
 	NoPod    bool  `json:"no_pod"` // the endpoint references no pod / an unknown pod
+	// PodLabels, when the input declares Labels, are the pod's concrete labels; Groups is
+	// then derived from them by the documented rule (the pod HAS the key and the value is
+	// equal), never read from the code under test.
+	PodLabels map[string]string `json:"pod_labels,omitempty"`
 }
 
 type bgInput struct {
@@ -44,6 +48,31 @@ type bgInput struct {
 	Pod       bool         `json:"mode_pod"`
 	Weights   []int        `json:"weights"` // as written in the annotation, may be out of 0..256
 	Endpoints []bgEndpoint `json:"endpoints"`
+	// Labels[i] = {name, value} of group i (value may be empty, names may be shared by
+	// groups); empty = the abstract scheme: group i is the label g<i>=y.
+	Labels [][2]string `json:"labels,omitempty"`
+}
+
+var bgLabelNames = []string{"track", "role", "tier"}
+var bgLabelValues = []string{"", "stable", "canary", "v1", "y"}
+
+// deriveGroups computes the membership of every endpoint from the concrete labels.
+func (in *bgInput) deriveGroups() {
+	if len(in.Labels) == 0 {
+		return
+	}
+	for i := range in.Endpoints {
+		e := &in.Endpoints[i]
+		e.Groups = nil
+		if e.NoPod {
+			continue
+		}
+		for g, l := range in.Labels {
+			if v, found := e.PodLabels[l[0]]; found && v == l[1] {
+				e.Groups = append(e.Groups, g)
+			}
+		}
+	}
 }
 
 func genBG(rng *rand.Rand) bgInput {
@@ -83,11 +112,37 @@ func genBG(rng *rand.Rand) bgInput {
 		}
 		in.Endpoints = append(in.Endpoints, e)
 	}
+	if rng.Intn(2) == 0 {
+		// concrete labels: shared names, empty values, pods lacking the key
+		for i := 0; i < n; i++ {
+			in.Labels = append(in.Labels, [2]string{bgLabelNames[rng.Intn(len(bgLabelNames))], bgLabelValues[rng.Intn(len(bgLabelValues))]})
+		}
+		for i := range in.Endpoints {
+			e := &in.Endpoints[i]
+			e.PodLabels = map[string]string{}
+			for _, name := range bgLabelNames {
+				switch rng.Intn(5) {
+				case 0, 1: // the pod lacks the key
+				case 2: // the value of one of the groups using this name, if any
+					for _, l := range in.Labels {
+						if l[0] == name {
+							e.PodLabels[name] = l[1]
+							break
+						}
+					}
+				default:
+					e.PodLabels[name] = bgLabelValues[rng.Intn(len(bgLabelValues))]
+				}
+			}
+		}
+		in.deriveGroups()
+	}
 	return in
 }
 
 // runBG drives the real updater; group i is the label "g<i>=y".
 func runBG(in bgInput) []int {
+	in.deriveGroups()
 	logger := nullLogger{}
 	trk := tracker.NewTracker()
 	cache := conv_helper.NewCacheMock(trk)
@@ -100,6 +155,12 @@ func runBG(in bgInput) []int {
 			labels := map[string]string{}
 			for _, g := range e.Groups {
 				labels[fmt.Sprintf("g%d", g)] = "y"
+			}
+			if len(in.Labels) > 0 {
+				labels = map[string]string{}
+				for k, v := range e.PodLabels {
+					labels[k] = v
+				}
 			}
 			cache.PodList[ref] = &api.Pod{ObjectMeta: metav1.ObjectMeta{Namespace: "default", Name: fmt.Sprintf("pod-%d", i), Labels: labels}}
 		}
@@ -114,7 +175,11 @@ func runBG(in bgInput) []int {
 	}
 	var parts []string
 	for i, w := range in.Weights {
-		parts = append(parts, fmt.Sprintf("g%d=y=%d", i, w))
+		if len(in.Labels) > 0 {
+			parts = append(parts, fmt.Sprintf("%s=%s=%d", in.Labels[i][0], in.Labels[i][1], w))
+		} else {
+			parts = append(parts, fmt.Sprintf("g%d=y=%d", i, w))
+		}
 	}
 	ann := map[string]string{
 		ingtypes.BackBlueGreenBalance: strings.Join(parts, ","),
